@@ -2,4 +2,25 @@
 EXTENDS P2pNeg
 MC_Quick == {"dep", "ml", "opt", "lto"}
 MC_Thorough == {"dep", "ml", "opt", "lto", "depx", "llcp"}
+MC_NoClasses == {}
+\* data link connections: every way of addressing x either opener x every announcement class of CONNECT and of CC, on
+\* the 36 pairs of link MIUs (the first 36 configurations of the "ml" sub-grid; the link timeouts play no part)
+MC_Ml == {"ml"}
+MC_MiuAll == {"none", "zero", "below", "at", "above", "max"}
+MC_RwAll == {NoTlv, 0, 2, 15}
+\* both sides open a connection in the same behaviour (the announcements of four ends side by side)
+MC_MiuTwo == {"none", "above"}
+MC_RwTwo == {NoTlv, 2}
+MC_ConnInit == Init /\ \E k \in 0..35 : c = GridCfg("ml", k)
+MC_ConnSpec == MC_ConnInit /\ [][Next]_vars
+\* (both sides opening: the link MIU pairs (128,2175) (2175,128) (129,129) (248,1024) (1024,248) (2174,2175) (2175,2175))
+MC_Conn2Init == Init /\ \E k \in {30, 5, 7, 20, 15, 34, 35} : c = GridCfg("ml", k)
+MC_Conn2Spec == MC_Conn2Init /\ [][Next]_vars
+\* reachability witnesses inside the checking run: an always-true invariant that reports the first state (per TLC
+\* worker) in which a witness predicate W_x is false, instead of one TLC run per witness
+ConnWitNames == <<"W_BySap", "W_ByName", "W_Resolved", "W_NoTlv", "W_Clamped", "W_Win">>
+ConnWit(i) == CASE i = 1 -> W_BySap [] i = 2 -> W_ByName [] i = 3 -> W_Resolved
+                [] i = 4 -> W_NoTlv [] i = 5 -> W_Clamped [] i = 6 -> W_Win
+MC_ConnWitLog == \A i \in 1..6 : (~ConnWit(i) /\ TLCGet(i) = 0) => (TLCSet(i, 1) /\ PrintT(<<"REACHED", ConnWitNames[i]>>))
+ASSUME \A i \in 1..6 : TLCSet(i, 0)
 =============================================================================
